@@ -217,8 +217,16 @@ func (c C12) parAlloc(x *LabelExec, op drv.Op) (*drv.Violation, error) {
 	var pends []pend
 	nreq := 2 + r.IntN(3)
 	used := map[uint64]bool{}
+	raise := uint64(0)
 	for i := 0; i < nreq; i++ {
 		cl := fmt.Sprintf("c%d", i+1)
+		if raise == 0 && i > 0 && r.IntN(3) == 0 {
+			// an administrator raises the max label to just above the current one while others allocate
+			raise = x.M.MaxEver + 1 + uint64(r.IntN(4))
+			reqs = append(reqs, proto.Req{Client: cl, Kind: "http", Method: "POST", URL: fmt.Sprintf("%s/maxlabel/%d", x.base(op.V), raise)})
+			pends = append(pends, pend{kind: "setmax"})
+			continue
+		}
 		if len(multi) > 0 && r.IntN(2) == 0 {
 			b := pick(r, multi)
 			if used[b] {
@@ -272,6 +280,9 @@ func (c C12) parAlloc(x *LabelExec, op drv.Op) (*drv.Violation, error) {
 			for l := m["start"]; l <= m["end"] && m["start"] != 0; l++ {
 				labels = append(labels, l)
 			}
+		case "setmax":
+			x.M.note(raise)
+			x.W.Stats.Probe("concurrent-maxlabel-raise")
 		}
 	}
 	x.W.Stats.Probe("concurrent-allocation-batches")
@@ -307,6 +318,22 @@ func (c C12) parAlloc(x *LabelExec, op drv.Op) (*drv.Violation, error) {
 	for _, id := range muts {
 		if id != 0 {
 			x.MutIDs = append(x.MutIDs, id)
+		}
+	}
+	if raise != 0 {
+		// the counter must have ended above everything the batch handed out, whatever the order was
+		st, body, err := x.post(fmt.Sprintf("%s/nextlabel/1", x.base(op.V)), nil)
+		if err != nil {
+			return nil, err
+		}
+		if st == 200 {
+			l := parseMutResp(body)["start"]
+			if seen[l] || l <= x.M.MaxEver {
+				return &drv.Violation{Prop: "C12", Oracle: "label-above-present", Sig: "allocated label not above the labels present (after a concurrent max-label raise)",
+					Detail: fmt.Sprintf("nextlabel/1 after the batch hands out %d; %d was present or issued before\n%s", l, x.M.MaxEver, detail)}, nil
+			}
+			x.AllocLabels = append(x.AllocLabels, l)
+			x.M.note(l)
 		}
 	}
 	return nil, nil
